@@ -54,7 +54,8 @@ class Ctl(desper.Controller):
 
 
 TYPES = [A, B, X]
-IDS = [1, 2]
+DEFAULT_IDS = [1, 2]
+IDS = list(DEFAULT_IDS)      # rebound by h_twin(ids=...) at the start of every path
 QTYPES = [A, B, X, Ctl]
 
 
@@ -88,7 +89,7 @@ def build(sp_choices):
     bits, dead, procs, ce, detached = sp_choices
     for (e, T), b in bits.items():
         if b:
-            w.add_component(e, T(tag='%s%d' % (T.__name__, e)))
+            w.add_component(e, T(tag='%s%r' % (T.__name__, e)))
     ctl = Ctl(tag='ctl')
     w.add_component(ce, ctl)
     if procs[0]:
@@ -191,15 +192,19 @@ def apply_direct(op, w, tag, e=None):
         w.add_component(e, B(tag=tag))
 
 
-def h_twin(sp, steps=1, second_types=3, focus=None):
+def h_twin(sp, steps=1, second_types=3, focus=None, ids=None):
+    global IDS
+    IDS = list(ids) if ids else list(DEFAULT_IDS)
+    if ids:
+        sp.cover('unusual-ids')
     bits = {}
     for e in IDS:
         for T in (TYPES if e == IDS[0] else TYPES[:second_types]):
             if focus is None or (focus == 'comps' and e == IDS[0] and T is not X):
-                bits[e, T] = bool(sp.flag('has[%d,%s]' % (e, T.__name__)))
+                bits[e, T] = bool(sp.flag('has[%r,%s]' % (e, T.__name__)))
             else:
                 bits[e, T] = False
-    dead = [focus is None and any(b for (e2, _), b in bits.items() if e2 == e) and bool(sp.flag('dead%d' % e))
+    dead = [focus is None and any(b for (e2, _), b in bits.items() if e2 == e) and bool(sp.flag('dead%r' % (e,)))
             for e in IDS]
     procs = [focus != 'comps' and bool(sp.flag('proc%d' % i)) for i in range(2)]
     ce = sp.pick(IDS, 'controller-entity') if focus is None else IDS[0]
@@ -212,7 +217,7 @@ def h_twin(sp, steps=1, second_types=3, focus=None):
     w1, c1 = build(choices)     # plain World calls
     w2, c2 = build(choices)     # shorthands
     sp.note('built: bits=%s dead=%s procs=%s controller on %r%s' % (
-        {'%s%d' % (T.__name__, e): b for (e, T), b in bits.items()}, dead, procs, ce, ' (then detached)' if detached else ''))
+        {'%s%r' % (T.__name__, e): b for (e, T), b in bits.items()}, dead, procs, ce, ' (then detached)' if detached else ''))
     sp.check(c2.entity == ce and c2.world is w2, 'controller-knows-owner',
              'controller.entity=%r world ok=%s, real owner %r' % (c2.entity, c2.world is w2, ce))
     sp.check(snapshot(w1) == snapshot(w2), 'twin-build', 'twin worlds differ after building')
@@ -538,10 +543,12 @@ TIERS = {
               ('twin', dict(steps=1, second_types=1)),
               ('twin', dict(steps=3, focus='procs'), dict(required=PROC_OPS + ['direct-world-op'])),
               ('twin', dict(steps=3, focus='comps'), dict(required=FOCUS_COMP_OPS + ['ref-set-sub', 'direct-world-op'])),
+              ('twin', dict(steps=1, second_types=1, ids=(None, 0)), dict(required=COMP_OPS + NULLARY + ['unusual-ids'])),
               ('proto', dict(n_types=2)), ('update', dict()),
               ('update', dict(max_listeners=2, frames=3, raiser=True), dict(required=['relayed', 'listener-raised', 'frame-after-failure']))],
     'thorough': [('update', dict(max_listeners=3, frames=3, adder=True), dict(required=['relayed', 'listener-adds-processor'])),
                  ('twin', dict(steps=2)), ('twin', dict(steps=4, focus='procs'), dict(required=PROC_OPS + ['direct-world-op'])),
+                 ('twin', dict(steps=2, second_types=1, ids=(None, '')), dict(required=COMP_OPS + NULLARY + ['unusual-ids'])),
                  ('twin', dict(steps=4, focus='comps'), dict(required=FOCUS_COMP_OPS + ['ref-set-sub', 'direct-world-op'])), ('proto', dict(n_types=3)), ('update', dict(max_listeners=4, frames=3)),
                  ('update', dict(max_listeners=3, frames=4, raiser=True), dict(required=['relayed', 'listener-raised', 'frame-after-failure']))],
 }
@@ -556,7 +563,7 @@ EXPLANATION = (
     'relayed by OnUpdateProcessor is a symbolic real and must arrive as the identical object, once per listener.')
 RULE = ('one evaluation = one feasible path (state bits x operation, or recipe bits); non-trivial = the path applied a '
         'shorthand / used a non-default construction source / relayed to at least one listener')
-BOUNDS = {'quick': 'twin: id 1 x 3 types (A, B(A), X), id 2 x 1 type + dead + 2 processors, controller on either id, 1 operation of 14; '
+BOUNDS = {'quick': 'twin (also with the entity ids None and 0 instead of 1 and 2): id 1 x 3 types (A, B(A), X), id 2 x 1 type + dead + 2 processors, controller on either id, 1 operation of 14; '
                    'proto: <=2 listed types; update: <=3 listeners, 2 frames',
           'thorough': 'twin: 2 operations; proto: <=3 listed types; update: <=4 listeners, 3 frames'}
 ASSUMPTIONS = ['update with raiser=True: one on_update listener raises in one solver-chosen frame; the exception must leave process(), '
